@@ -3,11 +3,10 @@
 id=$1
 cd /verif
 git merge --no-edit --no-commit "slice-$id" >/tmp/merge-$id.log 2>&1 || true
-git rm -rq --cached evidence 2>/dev/null
 for f in $(git diff --name-only --diff-filter=U); do
   case "$f" in
     lean/Main.lean|lean/SlipVerif.lean|MANIFEST.json|.gitignore) git checkout --ours -- "$f" 2>/dev/null; git add "$f";;
-    evidence/*) git rm -q --cached "$f" 2>/dev/null;;
+    evidence/*) git checkout --ours -- "$f" 2>/dev/null; git add -f "$f";;
     *) echo "CONFLICT: $f";;
   esac
 done
